@@ -90,10 +90,13 @@ def main(argv=None):
     err = traceback.format_exc()
   finally:
     ctx.close()
+  path = None
   if ctx.only:
-    ctx.extra['restricted_to_subspaces'] = sorted(ctx.only)
-  path = ctx.write_evidence(error=err)
-  if err is None:
+    # debugging restriction: the committed evidence of the full run is left alone
+    print('(--only %s: partial run, evidence file not rewritten)' % ','.join(sorted(ctx.only)))
+  else:
+    path = ctx.write_evidence(error=err)
+  if err is None and path:
     try:
       validate_evidence(path)
     except core.HarnessError as e:
